@@ -309,10 +309,35 @@ class MinAsyncSink:
         return self.headers.get("content-type", "")
 
 
+_POISON = (b"--px\r\nContent-Disposition: form-data; name=\"secret\"\r\n\r\nLEAKED-FROM-AN-EARLIER-REQUEST",
+           b"--px\r\nContent-Disposition: form-data; name=\"f\"; filename=\"x\"\r\n\r\nLEAKED-FILE-BYTES")
+
+
+def _poison(is_async):
+    """an EARLIER request of the same process whose parse ended in the middle of a part (truncated body, then one
+    that hits the memory limit): whatever it left behind must not show up in the parse that follows"""
+    for body, limit in ((_POISON[0], None), (_POISON[1], None), (_POISON[0] + b"\r\n--px--\r\n", 3)):
+        kw = dict(file_factory=UploadFile)
+        if limit is not None:
+            kw["max_form_memory_size"] = limit
+        try:
+            if is_async:
+                async def agen():
+                    yield body[:20]
+                    yield body[20:]
+
+                asyncio.run(helper_mod.parse_async_stream(agen(), b"px", "utf8", **kw))
+            else:
+                helper_mod.parse_stream(iter([body[:20], body[20:]]), b"px", "utf8", **kw)
+        except Exception:  # noqa
+            pass
+
+
 STREAM_OPS = ("mp_stream", "mp_astream", "mp_stream_min", "mp_astream_min")
 
 
 def run_stream(boundary, charset, max_parts, max_mem, chunks, is_async, minimal=False):
+    _poison(is_async)
     _Rec.held = 0
     _Rec.dheld = 0
     factory = UploadFile if not minimal else (MinAsyncSink if is_async else MinSyncSink)
